@@ -28,6 +28,7 @@ Lines == {
   L("fn", "f() {", Code, "BRACE", "", "", FALSE), L("fnnl", "f()", Code, "FN", "", "", FALSE), L("fnlb", "{", {"FN"}, "", "", "BRACE", FALSE),
   L("case", "case x in", Code, "CASE", "", "", FALSE), L("arm", "x)", {"CASE"}, "ARM", "", "", FALSE), L("dsemi", ";;", {"ARM"}, "", "ARM", "", FALSE), L("esac", "esac", {"CASE"}, "", "CASE", "", FALSE),
   L("sqo", "echo 'open", Code, "SQ", "", "", FALSE), L("sqc", "close'", {"SQ"}, "", "SQ", "", FALSE), L("dqo", "echo \"open", Code, "DQ", "", "", FALSE), L("dqc", "close\"", {"DQ"}, "", "DQ", "", FALSE),
+  L("sqcbs", "close' \\", {"SQ"}, "", "SQ", "", TRUE), L("dqcbs", "close\" \\", {"DQ"}, "", "DQ", "", TRUE), L("sqcand", "close' &&", {"SQ"}, "", "SQ", "", TRUE), L("cscpipe", ") |", {"CS"}, "", "CS", "", TRUE),
   L("mid", "mid $x", {"SQ", "DQ", "HERE"}, "", "", "", FALSE), L("midbs", "mid \\", {"SQ", "HERE"}, "", "", "", FALSE), L("midblank", "", {"SQ", "DQ", "HERE"}, "", "", "", FALSE),
   L("hd", "cat <<E", Code, "HERE", "", "", FALSE), L("hdq", "cat <<'E'", Code, "HERE", "", "", FALSE), L("hdend", "E", {"HERE"}, "", "HERE", "", FALSE), L("hdnot", " E", {"HERE"}, "", "", "", FALSE),
   L("cso", "echo $(", Code, "CS", "", "", FALSE), L("csc", ")", {"CS"}, "", "CS", "", FALSE), L("peo", "echo ${x:-", Code, "PE", "", "", FALSE), L("pec", "}", {"PE"}, "", "PE", "", FALSE), L("pemid", "w", {"PE"}, "", "", "", FALSE),
